@@ -3,8 +3,8 @@
 /repo (VERIF_REPO), records which check catches it in seeded/<id>/meta.json."""
 import json, os, subprocess, sys, time, shutil
 VERIF = os.path.dirname(os.path.dirname(os.path.abspath(__file__)))
-CLONE = "/var/tmp/asefile-seedrepo"
-ALT = {"C01-A": ["C11"], "C03-B": ["C02"], "C17-B": ["C17", "C02"], "C09-B": ["C02"], "C02-B": ["C09"], "C06-A": ["C06"], "C10-B": ["C10"]}
+CLONE = os.environ.get("CAMPAIGN_CLONE", "/var/tmp/asefile-seedrepo")
+ALT = {"C01-A": ["C11"], "C03-B": ["C02"], "C17-B": ["C17", "C02"], "C09-B": ["C02"], "C02-B": ["C09"], "C05-A": ["C11"], "C07-A": ["C02"], "C07-B": ["C15"], "C16-A": ["C08"], "C16-B": ["C11"], "C19-A": ["C02"], "C19-B": ["C06"], "C13-B": ["C13"], "C12-A": ["C04"]}
 
 def sh(cmd, **kw):
     return subprocess.run(cmd, stdout=subprocess.PIPE, stderr=subprocess.STDOUT, text=True, **kw)
